@@ -12,3 +12,17 @@ impl VxCrc32 {
     { unimplemented!() }
 }
 pub const CRC_CALCULATOR: VxCrc32 = VxCrc32 {};
+
+/// incremental form (`CRC_CALCULATOR.digest()`, `update`, `finalize`): the checksum of the
+/// concatenation of the updates
+pub struct VxDigest { pub data: Ghost<Seq<u8>> }
+impl VxCrc32 {
+    #[verifier::external_body]
+    pub fn digest(&self) -> (r: VxDigest) ensures r.data@ == Seq::<u8>::empty() { unimplemented!() }
+}
+impl VxDigest {
+    #[verifier::external_body]
+    pub fn update(&mut self, bytes: &[u8]) ensures final(self).data@ == old(self).data@ + bytes@ { unimplemented!() }
+    #[verifier::external_body]
+    pub fn finalize(self) -> (r: u32) ensures r == spec_crc(self.data@) { unimplemented!() }
+}
